@@ -13,17 +13,26 @@
 // and  1 + #POST logged - #WAIT logged >= real value >= 0  at any time: a log that shows two processes inside, or a
 // WAIT at logged value 0, is a real breach.
 //
-// usage: driver <fake-euid>   (scenario on stdin)
+// usage: driver <fake-euid> [watchdog seconds, default 20]   (scenario on stdin)
 //   phase                         start a group of children released together, reaped before the next phase
 //   child R H G END               R rounds of {guard; hold H us; } gap G us;  END in
-//                                 exit (exit(0) when idle: static destructors run), quick (_exit when idle),
-//                                 exitcs (exit(0) inside the last section), crashcs (_exit inside the last section)
-// after each phase the parent logs PROBE <value read by sem_getvalue | -1 if the semaphore does not exist>.
+//                                 exit     exit(0) when idle: static destructors run (with R = 0: no lock object)
+//                                 quick    _exit when idle: nothing runs
+//                                 exitcs   exit(0) inside the last section, the real MFrontLockGuard alive
+//                                 exitheld exit(0) with the guard alive, before the section marker
+//                                 throwcs  exception thrown inside the last section and never caught: the terminate
+//                                          handler below (copy of mfront/src/main.cxx) calls ::exit(EXIT_FAILURE);
+//                                          the stack is not unwound, the guard is never destroyed
+//                                 crashcs  _exit inside the last section (a kill: no code of the process runs)
+// after each phase the parent logs PROBE <value read by sem_getvalue | -1 if the semaphore does not exist>;
+// the last PROBE is the value the scenario leaves behind.  Children still blocked when the watchdog expires are killed (HUNG).
 #include <atomic>
 #include <cstdarg>
 #include <cstdio>
 #include <cstdlib>
 #include <cstring>
+#include <exception>
+#include <stdexcept>
 #include <string>
 #include <vector>
 #include <iostream>
@@ -45,9 +54,9 @@ int __real_sem_post(sem_t*);
 int __real_sem_close(sem_t*);
 }
 
-enum Kind { SPAWN, OPEN, WAIT, ENTER, LEAVE, POST, CLOSE, EXIT_BEGIN, EXIT_END, QUICK, PROBE, WAITFAIL };
+enum Kind { SPAWN, OPEN, WAIT, ENTER, LEAVE, POST, CLOSE, EXIT_BEGIN, EXIT_END, QUICK, PROBE, WAITFAIL, HUNG };
 static const char* const kind_names[] = {"SPAWN", "OPEN", "WAIT", "ENTER", "LEAVE", "POST",
-                                         "CLOSE", "EXIT_BEGIN", "EXIT_END", "QUICK", "PROBE", "WAITFAIL"};
+                                         "CLOSE", "EXIT_BEGIN", "EXIT_END", "QUICK", "PROBE", "WAITFAIL", "HUNG"};
 struct Event {
   int proc, kind, value;
 };
@@ -116,8 +125,23 @@ struct ChildSpec {
   std::string end;
 };
 
+// what mfront does with an exception nobody catches (mfront/src/main.cxx, mfront_terminate_handler)
+[[noreturn]] static void terminate_handler_like_mfront() {
+  if (auto pe = std::current_exception()) {
+    try {
+      std::rethrow_exception(pe);
+    } catch (const std::exception& e) {
+      std::cerr << e.what() << std::endl;
+    } catch (...) {
+      std::cerr << "unknown exception thrown" << std::endl;
+    }
+  }
+  ::exit(EXIT_FAILURE);
+}
+
 [[noreturn]] static void child_main(const ChildSpec& c) {
   std::atexit(mark_exit_end);  // registered first: runs after every static destructor
+  std::set_terminate(terminate_handler_like_mfront);
   bool registered = false;
   while (sh->go.load() == 0) {
     sleep_us(200);
@@ -130,6 +154,9 @@ struct ChildSpec {
         std::atexit(mark_exit_begin);
         registered = true;
       }
+      if (r + 1 == c.rounds && c.end == "exitheld") {
+        std::exit(0);
+      }
       logev(ENTER);
       sh->inside.fetch_add(1);
       // stay inside for `hold` microseconds; leave early once a second process is seen inside
@@ -140,6 +167,10 @@ struct ChildSpec {
       if (last && c.end == "exitcs") {
         sh->inside.fetch_sub(1);
         std::exit(0);
+      }
+      if (last && c.end == "throwcs") {
+        sh->inside.fetch_sub(1);
+        throw std::runtime_error("C46 driver: exception thrown inside a protected section, never caught");
       }
       if (last && c.end == "crashcs") {
         sh->inside.fetch_sub(1);
@@ -176,6 +207,7 @@ int main(int argc, char** argv) {
     return 2;
   }
   fake_euid = static_cast<unsigned>(std::strtoul(argv[1], nullptr, 10));
+  const long watchdog_us = (argc > 2 ? std::strtol(argv[2], nullptr, 10) : 20) * 1000000L;
   const std::string name = "/mfront-" + std::to_string(fake_euid);
   sem_unlink(name.c_str());  // private name: start from "the semaphore does not exist"
   sh = static_cast<Shared*>(mmap(nullptr, sizeof(Shared), PROT_READ | PROT_WRITE, MAP_SHARED | MAP_ANONYMOUS, -1, 0));
@@ -204,6 +236,7 @@ int main(int argc, char** argv) {
     sh->go.store(0);
     sh->inside.store(0);
     std::vector<pid_t> pids;
+    const int first = next;
     for (const auto& c : ph) {
       const int idx = next++;
       me = idx;
@@ -221,7 +254,7 @@ int main(int argc, char** argv) {
       pids.push_back(p);
     }
     sh->go.store(1);
-    // reap; a watchdog (never a verdict by itself) kills children that are still blocked after 20 s so that the
+    // reap; a watchdog (never a verdict by itself) kills children that are still blocked when it expires so that the
     // log of a deadlocked mutant can still be printed and judged by the acceptor
     std::vector<bool> done(pids.size(), false);
     size_t left = pids.size();
@@ -233,15 +266,19 @@ int main(int argc, char** argv) {
         if (r == pids[i]) {
           done[i] = true;
           --left;
-          if (!(WIFEXITED(st) && WEXITSTATUS(st) == 0) && rc == 0) rc = 5;
+          const bool fine = WIFEXITED(st) && (WEXITSTATUS(st) == 0 || (ph[i].end == "throwcs" && WEXITSTATUS(st) == EXIT_FAILURE));
+          if (!fine && rc == 0) rc = 5;
         }
       }
       if (left == 0) break;
-      if (waited > 20000000) {
+      if (waited > watchdog_us) {
         for (size_t i = 0; i != pids.size(); ++i) {
           if (!done[i]) {
             kill(pids[i], SIGKILL);
             waitpid(pids[i], nullptr, 0);
+            me = first + static_cast<int>(i);
+            logev(HUNG);
+            me = -1;
           }
         }
         rc = 7;
@@ -249,8 +286,8 @@ int main(int argc, char** argv) {
       }
       sleep_us(1000);
     }
-    if (rc == 7) break;
     probe(name);
+    if (rc == 7) break;
   }
   sem_unlink(name.c_str());
   const int n = sh->n.load();
